@@ -375,4 +375,23 @@ example : outs step (init (refR 10) (refR 10)) [.seek 5, .read, .read, .readRows
 example : outs stepNoSeek (init (refR 10) (refR 10)) [.seek 5, .read, .read, .readRows 2]
     = [.ok, .rows 5 1, .rows 6 1, .rows 5 2] := by decide
 
+/-! ### observation: a row reader that refuses seeks beyond the end -/
+
+/-- a reference row reader that refuses seeks beyond its last row (as the rows of a row-range view do) -/
+def strictR (T : Nat) : RowR where
+  σ := Nat
+  step p
+    | .seek k => if T < k then (p, .err) else (k, .ok)
+    | .read n => (p + min n (T - p), .rows p (min n (T - p)))
+    | .reset => (0, .ok)
+  init := 0
+
+/-- OBSERVATION (why `RowM.lenient` is a hypothesis; not reachable through the constructors of the
+    library, whose file, multi-row-group and buffer row readers all accept such seeks): over a row
+    reader that refuses seeks beyond the end, `SeekToRow(11)` on a fresh `Reader` of 10 rows is
+    accepted — the `Rows` are not open yet, only the index is remembered —, the first `ReadRows`
+    reports the refusal, and the second delivers row 0. -/
+example : outs step (init (strictR 10) (strictR 10)) [.seek 11, .readRows 1, .readRows 1]
+    = [.ok, .err, .rows 0 1] := by decide
+
 end PqModel.ReaderCursor
